@@ -105,12 +105,23 @@ func specRecHdrByte(r CdrHeader, k int) byte {
 func verif_bufLen(buf *bytes.Buffer) int          { return 0 }
 func verif_bufByte(buf *bytes.Buffer, k int) byte { return 0 }
 
-// specRecsLen: number of octets of the first n records (header plus payload each)
-func specRecsLen(list []CDR, n int) int {
+// SpecRecsLen: number of octets of the first n records (header plus payload each)
+func SpecRecsLen(list []CDR, n int) int {
 	if n <= 0 {
 		return 0
 	}
-	return specRecsLen(list, n-1) + specRecHdrLen(list[n-1].Hdr) + len(list[n-1].CdrByte)
+	return SpecRecsLen(list, n-1) + specRecHdrLen(list[n-1].Hdr) + len(list[n-1].CdrByte)
+}
+
+// SpecFileOK: the length fields of the structure describe what Encoding writes (TS 32.297 6.1.1.1,
+// 6.1.1.2, 6.1.1.9, 6.1.2.1): file length, header length, number of CDRs and every CDR length.
+func SpecFileOK(f CDRFile) bool {
+	return int(f.Hdr.HeaderLength) == specHdrLen(f.Hdr) && int(f.Hdr.NumberOfCdrsInFile) == len(f.CdrList) &&
+		int(f.Hdr.FileLength) == specHdrLen(f.Hdr)+SpecRecsLen(f.CdrList, len(f.CdrList)) &&
+		int(f.Hdr.LengthOfCdrRouteingFilter) == len(f.Hdr.CDRRouteingFilter) && int(f.Hdr.LengthOfPrivateExtension) == len(f.Hdr.PrivateExtension) &&
+		verif_forall(func(j int) bool {
+			return !(0 <= j && j < len(f.CdrList)) || int(f.CdrList[j].Hdr.CdrLength) == len(f.CdrList[j].CdrByte)
+		})
 }
 
 // (CDRFile).Encoding writes the file header followed by every record (header, payload): the file
@@ -119,11 +130,11 @@ func specRecsLen(list []CDR, n int) int {
 // Physical size bound (environment): the records of a file fit in memory, so no prefix sum of their
 // sizes exceeds 2^44.
 //@ func (CDRFile).Encoding [C03 C14 C15]
-//@   requires forall n int :: 0 <= n && n <= len(cdfFile.CdrList) ==> 0 <= specRecsLen(cdfFile.CdrList, n) && specRecsLen(cdfFile.CdrList, n) <= 1<<44
-//@   ensures verif_fileLen(fileName) == specHdrLen(cdfFile.Hdr)+specRecsLen(cdfFile.CdrList, len(cdfFile.CdrList))
+//@   requires forall n int :: 0 <= n && n <= len(cdfFile.CdrList) ==> 0 <= SpecRecsLen(cdfFile.CdrList, n) && SpecRecsLen(cdfFile.CdrList, n) <= 1<<44
+//@   ensures verif_fileLen(fileName) == specHdrLen(cdfFile.Hdr)+SpecRecsLen(cdfFile.CdrList, len(cdfFile.CdrList))
 //@   ensures forall k int in 0..50 :: verif_fileByte(fileName, k) == specHdrFixed(cdfFile.Hdr, k)
 //@   loop 0: unroll 3 when-inlined
-//@   loop 0: invariant 0 <= ITER && ITER <= len(cdfFile.CdrList) && buf != nil && verif_bufLen(buf) == specHdrLen(cdfFile.Hdr)+specRecsLen(cdfFile.CdrList, ITER)
+//@   loop 0: invariant 0 <= ITER && ITER <= len(cdfFile.CdrList) && buf != nil && verif_bufLen(buf) == specHdrLen(cdfFile.Hdr)+SpecRecsLen(cdfFile.CdrList, ITER)
 //@   loop 0: invariant forall k int in 0..50 :: verif_bufByte(buf, k) == specHdrFixed(cdfFile.Hdr, k)
 //@ func (*CDRFile).Decoding [C14]
 //@   inline
